@@ -158,6 +158,35 @@ def gen_exchange(r, big=False):
     return dict(ctx=c, req=req, cseq=cseq, resp=resp, sendpiv=sendpiv, sseq=sseq)
 
 
+# options the live server / client library act on themselves (proxying, block-wise transfer,
+# No-Response, conditional requests): kept out of the live exchanges, where the oracle is "the
+# application handler sees exactly this message"
+LIVE_SKIP_REQ = {1, 5, 16, 23, 27, 28, 39, 60, 258}
+LIVE_SKIP_RESP = {23, 27, 28, 60}
+
+
+def gen_live_exchange(r):
+    x = gen_exchange(r, big=False)
+    x["req"]["opts"] = [o for o in x["req"]["opts"] if o[0] not in LIVE_SKIP_REQ]
+    x["resp"]["opts"] = [o for o in x["resp"]["opts"] if o[0] not in LIVE_SKIP_RESP]
+    if not any(n == 6 for n, _ in x["req"]["opts"]):
+        x["resp"]["opts"] = [o for o in x["resp"]["opts"] if o[0] != 6]
+    # coap_send refuses tokens above 8 bytes unless extended tokens were negotiated
+    x["req"]["token"] = x["req"]["token"][:8]
+    x["resp"]["token"] = x["req"]["token"]
+    # FETCH / PATCH / iPATCH without Content-Format are answered 4.15 by the library itself
+    if x["req"]["code"] > 4:
+        x["req"]["code"] = r.choice([1, 2, 3, 4])
+    x["sendpiv"] = 0
+    x["live"] = True
+    return x
+
+
+def live_line(cmd, x):
+    return " ".join([cmd] + ctx_tokens(x["ctx"]) + msg_tokens(x["req"]) + [str(x["cseq"])] +
+                    msg_tokens(x["resp"]) + [str(x["sseq"])])
+
+
 def line_of(x):
     return " ".join(["oscx"] + ctx_tokens(x["ctx"]) + msg_tokens(x["req"]) + [str(x["cseq"])] +
                     msg_tokens(x["resp"]) + [str(x["sendpiv"]), str(x["sseq"])])
